@@ -4,7 +4,8 @@ import effects
 
 TECHNIQUE = ("request typestate by outcome summaries (disposition count x returned status x out-flag, computed bottom-up over the request layers by "
              "disjunctive value-set dataflow), index-state typestate of wire queries at every callback site, held-pointer analysis across calls "
-             "with the MAY_COMPLETE effect (slot-resolved call graph), who-may-call census of the wire callback slot")
+             "with the MAY_COMPLETE effect (slot-resolved call graph), who-may-call census of the wire callback slot"
+             ", who-may-hold census of query/connection pointer members over all record types and re-derivation check of the deferred re-send")
 LEVEL_TEXT = ("static: decides on every CFG path, including OOM/failure unwinds, (ONCE) that every request layer disposes its request exactly once "
               "(completes it or hands it to the layer below) and that status/flag protocols between layers tell the truth; (COUNTED) that the "
               "getaddrinfo sub-request counter matches the lookups started; (DETACH) that a wire query is unreachable from the indexes a re-entrant "
